@@ -473,6 +473,7 @@ def verifyReturnsSrc : List (String × String) :=
     ("status-list", "err := v.credentialStatus.Verify(credentialToVerify); err != nil && errors.Is(err,types.ErrRevoked) => err"),
     ("trusted", "!allowUntrusted && range credentialToVerify.Type && !v.trustConfig.IsTrusted(t,credentialToVerify.Issuer) => types.ErrUntrusted"),
     ("valid-at", "!credentialToVerify.ValidAt(validAtNotNil,maxSkew) => types.ErrCredentialNotValidAtTime"),
+    ("issuer-is-did", "checkSignature && issuerDID,err := did.ParseDID(credentialToVerify.Issuer.String()); err != nil => fmt.Errorf(\"could not validate issuer: %w\",err)"),
     ("-jwt-protected-headers", "checkSignature && rawJwt != \"\" && headers,err := ExtractProtectedHeaders(rawJwt); err != nil => err"),
     ("issuer-resolves", "checkSignature && _,_,err = v.didResolver.Resolve(*issuerDID,&metadata); err != nil => fmt.Errorf(\"could not validate issuer: %w\",err)"),
     ("sig:*", "checkSignature => v.VerifySignature(credentialToVerify,validAt)") ]
@@ -562,7 +563,7 @@ theorem fact_proof_valid_at : Nuts.Facts.C01.proofValidAtReturns = proofValidAtR
     of infrastructure — store failure, header extraction, marshalling — that the model does not have) -/
 theorem fact_model_checks_are_the_source_checks (cfg : Cfg) (P : Crypto) (E : Env) (au : Bool) (at_ : Option Time) (i : String) (b : Bytes) :
     verifyReturnsSrc.map (·.1) = ["validator", "max-2-types", "-store-error", "not-revoked", "status-list", "trusted", "valid-at",
-        "-jwt-protected-headers", "issuer-resolves", "sig:*"] ∧
+        "issuer-is-did", "-jwt-protected-headers", "issuer-resolves", "sig:*"] ∧
     (preChecks cfg E au at_).map (·.name) = ["validator", "max-2-types", "not-revoked", "status-list", "trusted", "valid-at"] ∧
     (issuerChecks E at_).map (·.name) = ["issuer-is-did", "issuer-resolves"] ∧
     "-marshal" :: (ldChecks cfg P E at_ i b).map (·.name) = jsonldProofReturnsSrc.map (·.1) ∧
